@@ -138,8 +138,10 @@ func (m *expirationMap[V]) cleanup(store store[V], policy *defaultPolicy[V], onE
 			verifObserve(vpSweepKey, key, conflict)
 			verifPoint(vpSweepKey)
 			expr := store.Expiration(key)
-			// Sanity check. Verify that the store agrees that this key is expired.
-			if expr.After(now) {
+			// Sanity check. Verify that the store agrees that this key is expired. A zero
+			// expiration means that the key has been re-written without TTL since the bucket
+			// was filled (or is gone): it must not be removed by expiry processing.
+			if expr.IsZero() || expr.After(now) {
 				continue
 			}
 			verifPoint(vpSweepChecked)
